@@ -118,7 +118,11 @@ func behaviours() []behaviour {
 		behaviour{"404 via helper", 404, func(c fox.Context) { _ = c.String(404, "nope") }, ""},
 		behaviour{"flush, then WriteHeader(500)", 200, func(c fox.Context) { _ = c.Writer().FlushError(); c.Writer().WriteHeader(500) }, ""},
 		behaviour{"flush, then http.Error 503", 200, func(c fox.Context) { _ = c.Writer().FlushError(); http.Error(c.Writer(), "late", 503) }, ""},
-		behaviour{"WriteHeader(404), flush, WriteHeader(200)", 404, func(c fox.Context) { c.Writer().WriteHeader(404); _ = c.Writer().FlushError(); c.Writer().WriteHeader(200) }, ""},
+		behaviour{"WriteHeader(404), flush, WriteHeader(200)", 404, func(c fox.Context) {
+			c.Writer().WriteHeader(404)
+			_ = c.Writer().FlushError()
+			c.Writer().WriteHeader(200)
+		}, ""},
 		behaviour{"double WriteHeader 201 then 500", 201, func(c fox.Context) { c.Writer().WriteHeader(201); c.Writer().WriteHeader(500) }, ""},
 	)
 	return out
@@ -288,7 +292,7 @@ func concurrent(run *kit.Run) {
 		runtime.Gosched()
 	})
 	workers := 4 * runtime.GOMAXPROCS(0)
-	per := run.Pick(300, 20000)
+	per := run.Pick(300, 60000)
 	var wg sync.WaitGroup
 	for g := 0; g < workers; g++ {
 		wg.Add(1)
